@@ -32,6 +32,7 @@ func (c *Conversation) processAKE(msgType byte, msg []byte) (toSend []messageWit
 
 	var toSendSingle messageWithHeader
 	var toSendExtra []messageWithHeader
+	previousState := c.ake.state.identity()
 
 	switch msgType {
 	case msgTypeDHCommit:
@@ -48,7 +49,11 @@ func (c *Conversation) processAKE(msgType byte, msg []byte) (toSend []messageWit
 		err = newOtrErrorf("unknown message type 0x%X", msgType)
 	}
 
-	c.ake.lastStateChange = time.Now()
+	// A message that was ignored or rejected is not a state change - it must not
+	// make us ignore the next query message
+	if c.ake.state.identity() != previousState || toSendSingle != nil {
+		c.ake.lastStateChange = time.Now()
+	}
 
 	messages := append([]messageWithHeader{toSendSingle}, toSendExtra...)
 	toSend = compactMessagesWithHeader(messages...)
